@@ -19,7 +19,12 @@ Recognised fragment (everything else that mentions the configuration aborts):
   OmegaConf.save(config=self.config, f=...)            -> AWrite file ctor
   OmegaConf.save(config=<masked copy>, f=...)          -> AWriteMasked file ctor
   X.experiment.config.update({... self.config ...})    -> AWrite FWandbRun
-  self.trainer.fit(self.model, ...)                    -> [If <enable_checkpointing> ckpt]; ACall
+  self.trainer.fit(self.model, ...)                    -> [If <enable_checkpointing> ckpt]; ACall 0
+  wandb.login(key=<the key>)                           -> ACall 1   (the only call that may receive the key)
+  <cfg>.trainer_config.wandb.wandb_mode == "offline"   -> CFlag WandbOffline
+  if total_cache_memory > available_memory: <re-definitions of self.data_pipeline_fw, chunk paths>
+                                                       -> CFlag MemFallback; later tests of
+                                                          self.data_pipeline_fw see the switched value
   [if P.exists():] shutil.rmtree(P...)                 -> ARm target
   raise ...                                            -> ARaise
   if / elif / else, for, try/except KeyboardInterrupt/finally, self._method() (inlined)
@@ -40,11 +45,15 @@ FLAG_BY_PATH = {
     ("data_config", "use_existing_chunks"): "UseExisting",
 }
 FW_PATH = ("data_config", "data_pipeline_fw")
+WANDB_MODE_PATH = ("trainer_config", "wandb", "wandb_mode")
+RUN_ID_PATH = ("trainer_config", "wandb", "run_id")
+RUN_ID_NO = 100          # EffectIR.run_id_path
+CALL_FIT, CALL_LOGIN = 0, 1
 FW_FLAG = {"torch_dataset": "FwTorch", "torch_dataset_np_chunks": "FwNpChunks", "litdata": "FwLitdata"}
 
 # calls that may receive the whole live configuration without persisting it
 PURE_CONFIG_READERS = {"OmegaConf.select", "OmegaConf.to_container", "isinstance", "len", "type",
-                       "wandb.login", "OmegaConf.to_yaml", "OmegaConf.is_missing"}
+                       "OmegaConf.to_yaml", "OmegaConf.is_missing"}
 
 
 class Unsupported(Exception):
@@ -228,6 +237,10 @@ class Translator:
         self.ckpt_guard = None
         self.model_captures_live = False
         self.ckpt_atom = None
+        self.cond_stack: list = []            # path condition (if-tests enclosing the current statement)
+        self.fw_override = None               # (guard cond, new framework value) after the memory fallback
+        self.n_fit = 0
+        self.ctor_param = None
 
     # ---- lightning module ------------------------------------------------
     def analyse_lightning_module(self):
@@ -410,8 +423,13 @@ class Translator:
         return all(a == b or a == "*" for a, b in zip(path, KEYPATH))
 
     def path_id(self, path) -> int:
+        if tuple(path) == RUN_ID_PATH:
+            self.run_id_seen = True
+            return RUN_ID_NO
         if path not in self.paths:
             self.paths.append(path)
+        if len(self.paths) >= RUN_ID_NO:
+            raise Unsupported(None, "too many distinct mutation paths")
         return self.paths.index(path)
 
     # ---- expressions: effectful calls ---------------------------------------
@@ -447,8 +465,12 @@ class Translator:
                 out.append((n, ("<" + dotted(n) + ">",)))
                 return
             if isinstance(n, ast.Attribute):
-                # self.X / a.b : reading an attribute of self is not passing self
+                # self.X / a.b : reading an attribute of self is not passing self — unless X is the
+                # stash of the key (self._wandb_api_key = <cfg>.trainer_config.wandb.api_key)
                 if isinstance(n.value, ast.Name) and n.value.id == "self":
+                    ap = self.attr_alias.get(n.attr)
+                    if ap is not None and self.exposes_key(ap):
+                        out.append((n, ("<stashed key>",)))
                     return
                 walk(n.value)
                 return
@@ -507,6 +529,19 @@ class Translator:
                 continue
             if f == "verify_training_cfg":
                 continue                      # handled by the enclosing assignment to self.config
+            if f == "wandb.login":
+                # the one legitimate consumer of the key; it must get nothing but the key
+                kw = {k.arg: k.value for k in c.keywords}
+                others = list(c.args) + [v for k_, v in kw.items() if k_ != "key"]
+                if any(self.exposures(a, scope) for a in others):
+                    raise Unsupported(c, "wandb.login receives the configuration outside `key=`")
+                kp = kw.get("key")
+                if kp is not None and self.cfg_path(kp, scope) not in (None, KEYPATH):
+                    raise Unsupported(c, "wandb.login(key=...) receives a configuration node, not the key")
+                effs.append(("do", f"ACall {CALL_LOGIN}", f"wandb.login (line {c.lineno})"))
+                for x in ast.walk(c):
+                    handled_inner.add(id(x))
+                continue
             # any other call: does it receive the key-bearing configuration?
             args = list(c.args) + [k.value for k in c.keywords]
             exp = [e for a in args for e in self.exposures(a, scope)]
@@ -594,10 +629,11 @@ class Translator:
             raise Unsupported(c, "fit before the lightning module was constructed from self.config")
         if self.ckpt_guard is None:
             raise Unsupported(c, "fit before `self.trainer = L.Trainer(..., enable_checkpointing=...)`")
-        k = self.n_call
-        self.n_call += 1
+        self.n_fit += 1
+        if self.n_fit > 1:
+            raise Unsupported(c, "more than one call of self.trainer.fit")
         ck = mk_if(self.ckpt_guard, ("do", self.ckpt_atom, "checkpoints written during Trainer.fit"), ("skip",))
-        return seq([ck, ("do", f"ACall {k}", f"Trainer.fit returns (line {c.lineno})")])
+        return seq([ck, ("do", f"ACall {CALL_FIT}", f"Trainer.fit returns (line {c.lineno})")])
 
     # ---- conditions -------------------------------------------------------------
     def opaque(self, node):
@@ -645,18 +681,33 @@ class Translator:
             return ("flag", FLAG_BY_PATH[src])
         if isinstance(node, ast.Compare) and len(node.ops) == 1:
             left, op, right = node.left, node.ops[0], node.comparators[0]
+            if self.flag_source(left, scope) == WANDB_MODE_PATH and isinstance(right, ast.Constant) \
+                    and right.value == "offline" and isinstance(op, (ast.Eq, ast.NotEq)):
+                c = ("flag", "WandbOffline")
+                return c if isinstance(op, ast.Eq) else ("not", c)
             if self.flag_source(left, scope) == FW_PATH:
+                via_attr = self.cfg_path(left, scope) is None      # self.data_pipeline_fw, not the config node
                 if isinstance(op, ast.Eq) and isinstance(right, ast.Constant) and right.value in FW_FLAG:
-                    return ("flag", FW_FLAG[right.value])
+                    return self.fw_is(right.value, via_attr)
                 if isinstance(op, ast.In) and isinstance(right, (ast.List, ast.Tuple)) and all(
                         isinstance(e, ast.Constant) and e.value in FW_FLAG for e in right.elts) and right.elts:
-                    acc = ("flag", FW_FLAG[right.elts[0].value])
+                    acc = self.fw_is(right.elts[0].value, via_attr)
                     for e in right.elts[1:]:
-                        acc = ("or", acc, ("flag", FW_FLAG[e.value]))
+                        acc = ("or", acc, self.fw_is(e.value, via_attr))
                     return acc
         if self.call_effects(node, scope):
             raise Unsupported(node, "condition with an effectful call")
         return self.opaque(node)
+
+    def fw_is(self, value: str, via_attr: bool):
+        """`self.data_pipeline_fw == value`: the configured framework — or, once the memory fallback has
+        re-defined the ATTRIBUTE (the config node keeps its value), the switched one under its guard."""
+        base = ("flag", FW_FLAG[value])
+        if not via_attr or self.fw_override is None:
+            return base
+        g, newv = self.fw_override
+        kept = ("and", ("not", g), base)
+        return ("or", g, kept) if value == newv else kept
 
     # ---- statements ----------------------------------------------------------------
     def stmt(self, st, scope, siblings, last):
@@ -717,9 +768,16 @@ class Translator:
         for t in flat:
             # (a) the configuration object itself
             if dotted(t) == "self.config":
-                if not (isinstance(value, ast.Call) and dotted(value.func) == "verify_training_cfg"):
-                    self.notes.append(f"line {st.lineno}: self.config reassigned from an unrecognised expression "
-                                      "(treated as a reload that may contain the key)")
+                # the only recognised (re)load: the verified SUPPLIED configuration, in the constructor
+                # (anything else could make `initial_config.yaml == supplied` false without an ASet)
+                fn = scope.get("fn")
+                param = fn.args.args[1].arg if fn is not None and len(fn.args.args) > 1 else None
+                if not (scope["ctor"] and len(scope["stack"]) == 1 and isinstance(value, ast.Call)
+                        and dotted(value.func) == "verify_training_cfg" and len(value.args) == 1
+                        and not value.keywords and isinstance(value.args[0], ast.Name)
+                        and value.args[0].id == param):
+                    raise Unsupported(st, "self.config is assigned something other than "
+                                          "verify_training_cfg(<the constructor's config argument>)")
                 effs.append(("do", "AReload", f"line {st.lineno}"))
                 continue
             p = None if isinstance(t, ast.Name) else self.cfg_path(t, scope)
@@ -783,7 +841,7 @@ class Translator:
                         if value is not None and any(d is not None and ast.dump(d) == ast.dump(value)
                                                      for d in self.attr_defs.get(t.attr, [])):
                             continue              # same definition as in __init__: no change
-                        return ("redef", t.attr, st.lineno)
+                        return ("redef", t.attr, st.lineno, value)
                 continue
             # (f) anything else (os.environ[...] = ..., x.y = ...): must not receive the key-bearing config
             if value is not None and self.exposures(value, scope):
@@ -800,22 +858,69 @@ class Translator:
                 and st.body[0].value.args
                 and ast.dump(st.test.func.value) in ast.dump(st.body[0].value.args[0])):
             return self.rm(st.body[0].value, scope)
-        c = self.cond(st.test, scope)
+        if self._is_memory_test(st.test, scope):
+            c = ("flag", "MemFallback")
+        else:
+            c = self.cond(st.test, scope)
+        self.cond_stack.append(c)
         th = self.block(st.body, scope)
+        self.cond_stack[-1] = ("not", c)
         el = self.block(st.orelse, scope)
-        # the memory fallback of _create_data_loaders_torch_dataset re-defines the framework
-        # attributes under `total_cache_memory > available_memory`: outside the model (assumption)
+        self.cond_stack.pop()
+        # the memory fallback of _create_data_loaders_torch_dataset re-defines the framework attribute
+        # and the chunk paths under `total_cache_memory > available_memory`: from there on every test of
+        # self.data_pipeline_fw sees the switched value under the guard <path condition> /\ MemFallback
         for br in (th, el):
             if self._contains(br, "redef"):
-                src = ast.unparse(st.test)
-                if "available_memory" in src and br is th and not has_effect(self._strip(br, "redef")):
-                    self.assumptions.append(
-                        f"line {st.lineno}: the in-memory cache fits (`{src}` is false); the fallback that switches "
-                        "the framework to np_chunks mid-run is outside the model")
+                if c == ("flag", "MemFallback") and br is th and not has_effect(self._strip(br, "redef")) \
+                        and not st.orelse and self.fw_override is None:
+                    self._memory_fallback(st, th)
                     th = ("skip",)
                 else:
                     raise Unsupported(st, "an attribute that run flags / chunk paths depend on is re-defined")
         return mk_if(c, th, el)
+
+    def _is_memory_test(self, test, scope) -> bool:
+        """`total_cache_memory > available_memory` with available_memory = psutil.virtual_memory().available"""
+        if not (isinstance(test, ast.Compare) and len(test.ops) == 1 and isinstance(test.ops[0], ast.Gt)
+                and isinstance(test.comparators[0], ast.Name) and test.comparators[0].id == "available_memory"):
+            return False
+        defs = scope["defs"].get("available_memory", [])
+        return bool(defs) and all(d is not None and "virtual_memory" in ast.dump(d) for d in defs)
+
+    @staticmethod
+    def _cond_named(c) -> bool:
+        if c[0] == "opaque":
+            return False
+        if c[0] == "not":
+            return Translator._cond_named(c[1])
+        if c[0] in ("and", "or"):
+            return Translator._cond_named(c[1]) and Translator._cond_named(c[2])
+        return True
+
+    def _memory_fallback(self, st, th):
+        redefs = [x for x in (th[1] if th[0] == "seq" else [th]) if x[0] == "redef"]
+        got = {r[1]: r[3] for r in redefs}
+        want = {"data_pipeline_fw", "np_chunks", "train_np_chunks_path", "val_np_chunks_path"}
+        if set(got) != want:
+            raise Unsupported(st, f"memory fallback re-defines {sorted(got)}, expected {sorted(want)}")
+        fw = got["data_pipeline_fw"]
+        if not (isinstance(fw, ast.Constant) and fw.value == "torch_dataset_np_chunks"):
+            raise Unsupported(st, "memory fallback does not switch to torch_dataset_np_chunks")
+        if not (isinstance(got["np_chunks"], ast.Constant) and got["np_chunks"].value is True):
+            raise Unsupported(st, "memory fallback does not set self.np_chunks = True")
+        for attr, leaf in (("train_np_chunks_path", "train_chunks"), ("val_np_chunks_path", "val_chunks")):
+            if leaf not in ast.dump(got[attr]):
+                raise Unsupported(st, f"memory fallback: self.{attr} does not end in `{leaf}`")
+        outer = self.cond_stack[:]          # (the test itself was popped already)
+        if not all(self._cond_named(c) for c in outer):
+            raise Unsupported(st, "memory fallback under a data-dependent condition")
+        g = ("flag", "MemFallback")
+        for c in reversed(outer):
+            g = ("and", c, g)
+        self.fw_override = (g, "torch_dataset_np_chunks")
+        self.notes.append(f"line {st.lineno}: memory fallback modelled: self.data_pipeline_fw reads as "
+                          f"torch_dataset_np_chunks under {pp_cond(g)}")
 
     def _contains(self, ir, tag) -> bool:
         if ir[0] == tag:
